@@ -15,14 +15,14 @@ CHECKS = {
     "C05": (MC, "DESIGN.md §5 C05",
             "Every bipartite graph up to 4x5 vertices (thorough 5x5) is run through the real Hopcroft-Karp "
             "routine, every event / chroma / note / multipitch-frame set pair of the stated small scope through "
-            "the real matchers in every input order; each returned pairing is checked for validity under the "
+            "the real matchers in every input order (incl. dense clusters of 5-6 events per side in one window and an onset distance of exactly k ms against every tolerance k = 1..150 ms); each returned pairing is checked for validity under the "
             "exact predicate and for maximality against a brute-force DP. Exhaustive within the stated bounds.",
             "Small-scope hypothesis; exact dyadic / decimal lattices; pitch differences kept >=1 cent from the "
             "tolerance; brute-force bitmask DP as the reference.",
             "bounded exhaustive explicit-state enumeration of inputs against a brute-force reference model"),
     "C13": (MC, "DESIGN.md §5 C13",
             "All time-ordered interval sequences (<=4, thorough <=5 intervals on a 8/9-point lattice) x every "
-            "(t_min,t_max) on the lattice, half-lattice and beyond, all pairs of contiguous segmentations <=7 cells, "
+            "(t_min,t_max) on the lattice, half-lattice and beyond (plus a zero-crossing axis with t_min/t_max == 0.0), all pairs of contiguous segmentations <=7 cells, "
             "all sample grids and all boundary lists of the stated bounds are pushed through the real util "
             "functions and compared cell by cell with a step-function reference model. Exhaustive within bounds.",
             "Small-scope hypothesis; integer/half-integer times (exact); 5-decimal rounding lattice kept away "
@@ -86,7 +86,7 @@ CHECKS = {
             "Valid side: every adapter pair state x function x configuration must return, and evaluate() of "
             "segment / chord / hierarchy must return on a complete boundary-coincidence lattice (estimate "
             "starting/ending before, at, after the reference span; boundary on its start/end; outside; empty; "
-            "window == frame_size). Fault side: 97 entry points x every documented single fault x every position (malformed estimated intervals also strictly outside the reference span for segment/chord evaluate) "
+            "window == frame_size). Fault side: 105 entry points x every documented single fault x every position (malformed estimated intervals also strictly outside the reference span for segment/chord evaluate; mis-shaped pattern tuples at every pattern/occurrence/note position) "
             "must raise ValueError (InvalidChordException for chord labels) and nothing else.",
             "Only faults the task validators document are demanded; base inputs are hand-chosen valid annotations; "
             "known pre-existing failures are listed in known_findings.json with witness predicates.",
